@@ -12,7 +12,9 @@ CHECKS = {
  "C05": ("tracersim", "exploration", "reference aggregator (plain lists, two-pass formulas) compared with the snapshot after every round, plus conservation laws", "4 C05"),
  "C14": ("tracersim", "exploration", "extension-emitting responders (RFC 4884 compliant and legacy layouts, arbitrary objects, MPLS stacks); reported extensions must equal the encoded list and the probe must still be recognised", "4 C14"),
  "C15": ("tracersim", "exploration", "flow invariants and per-flow reference aggregation over ECMP topologies with small flow limits", "4 C15"),
- "C16": ("tracersim", "exploration", "builder path: every combination the Builder API admits is built and, when accepted, run over simulated networks; it is rejected before any socket call or runs without panicking (command-line half: tuisim, see DESIGN.md)", "4 C16"),
+ "C16": ("tracersim+tuisim", "exploration", "builder half (tracersim): every combination the Builder API admits is built and, when accepted, run over simulated networks; command-line half (tuisim): generated argv + configuration file through the real clap parser and TrippyConfig::from, tracers built by the real builder chain and run over the simulated network; option precedence: differential input enumeration on the same pipeline (each option absent / file / CLI / both), reported separately as precedence_cases", "4 C16, 6"),
+ "C17": ("tuisim", "exploration", "the real event loop (run_app), TuiApp and every renderer on a simulated terminal (1x1..300x100) and keyboard (pty on fd 0), with trace updates, tracer errors and DNS completions scheduled between a command and the next frame; no panic, no hang (watchdog), selection invariants read from TuiApp at every frame", "6"),
+ "C18": ("tuisim", "exploration", "same episodes; at every frame with a privacy ttl n in force no address / host name / AS name / GeoIP text / coordinates of a responding hop with ttl <= n, nor the source address, occurs in the cell buffer; expand/contract step semantics checked against the key that was pressed", "6"),
  "C20": ("snapsim", "exploration", "the real tracer thread and reader threads calling snapshot()/clear() under shuttle's seeded schedulers (random and PCT); the recorded history is checked for linearizability against the sequential model 'rounds applied since the last clear'", "5"),
  "C19": ("tracersim", "exploration", "per-round NAT status recomputed from the quoted checksums on the simulated wire over paths with rewriting devices", "4 C19"),
  "C06": ("tracersim", "exploration", "online send-discipline monitor over wire records and hand-overs", "4 C06"),
@@ -27,8 +29,6 @@ NOT_APPLICABLE = {
  "C13": "the codec half is a pure function of (bytes, addresses); arbitrary contents and the TCP helper are never produced by the running tracer. Its only stateful sentence (Paris probes carry the sequence in the checksum field and still verify) is part of C11's statement and is enforced there (DESIGN.md section 7)",
 }
 PENDING = {
- "C17": "check under construction (tuisim)",
- "C18": "check under construction (tuisim)",
 }
 
 def main():
@@ -49,16 +49,17 @@ def main():
     na = [{"property_id": k, "reason": v} for k, v in sorted({**NOT_APPLICABLE, **{k: v for k, v in PENDING.items() if k not in CHECKS}}.items())]
     m = {
         "version": 1,
-        "setup_cmd": "cd /verif/sim && CARGO_NET_OFFLINE=true cargo build --offline --profile checked -p tracersim && cd /verif/sim/snapsim && CARGO_NET_OFFLINE=true cargo build --offline --profile checked",
+        "setup_cmd": "cd /verif/sim && CARGO_NET_OFFLINE=true cargo build --offline --profile checked -p tracersim -p tuisim && cd /verif/sim/snapsim && CARGO_NET_OFFLINE=true cargo build --offline --profile checked",
         "hooks": {
-            "guard": "cargo features verif-hooks and verif-shuttle (trippy-core)",
+            "guard": "cargo features verif-hooks (trippy-core, trippy-tui, trippy-dns) and verif-shuttle (trippy-core)",
             "enable": "the harness crates under /verif/sim depend on /repo's crates by path with features = [\"verif-hooks\"]",
             "baseline_off_cmd": "cd /repo && cargo nextest run --workspace --no-fail-fast --test-threads 8 --offline || cargo test --workspace --no-fail-fast --offline",
             "source_commits": [h.split()[0] for h in hooks],
             "add_only": True,
         },
         "engines": [
-            {"name": "tracersim", "path": "/verif/sim/tracersim", "serves_properties": sorted(k for k, v in CHECKS.items() if v[0] == "tracersim"), "kind_free_text": "the real Builder/Tracer/Strategy/Channel/State over SimSocket/SimPlatform, a simulated network with an independent RFC codec, and a virtual clock (clock_gettime interposed); seeded decision tape, tape shrinking, replay files"},
+            {"name": "tracersim", "path": "/verif/sim/tracersim", "serves_properties": sorted(k for k, v in CHECKS.items() if v[0].startswith("tracersim")), "kind_free_text": "the real Builder/Tracer/Strategy/Channel/State over SimSocket/SimPlatform, a simulated network with an independent RFC codec, and a virtual clock (clock_gettime interposed); seeded decision tape, tape shrinking, replay files"},
+            {"name": "tuisim", "path": "/verif/sim/tuisim", "serves_properties": ["C16", "C17", "C18"], "kind_free_text": "real clap/TOML configuration pipeline, real TuiApp + run_app + renderers on a SimBackend (ratatui TestBackend inside), keyboard = pseudo-terminal on fd 0 read by the real crossterm parser, harness-written MaxMind DB for the real GeoIP reader, resolver without thread (DNS completions are scheduled events), trace data produced by real tracers over tracersim's network; 16 worker processes, watchdog with gdb stack sampling for hangs"},
             {"name": "snapsim", "path": "/verif/sim/snapsim", "serves_properties": sorted(k for k, v in CHECKS.items() if v[0] == "snapsim"), "kind_free_text": "tracersim's world plus shuttle 0.9.3 as the thread scheduler (state lock replaced by shuttle's RwLock through feature verif-shuttle and a shadow manifest); linearizability checker; persisted schedules as replay"},
         ],
         "checks": checks,
